@@ -1972,3 +1972,50 @@ M('C01','onvariant-sortfunc-removed','serializer/serializer.go',"""		slices.Sort
 """,'determinism/sort-before-write', base='C01-13')
 M('C04','onvariant-sortfunc-backward-ascending','kvstore/utils/utils.go',"""			return strings.Compare(b, a)""","""			return strings.Compare(a, b)""",'order/sortslice', base='C04-13')
 M('C12','onvariant-enqueue-push-front','ds/walker/walker.go',"""	w.enqueue(nextElement, w.stack.PushBack)""","""	w.enqueue(nextElement, w.stack.PushFront)""",'bulk/no-early-exit', base='C12-15')
+
+M('C02','viaslice-no-length-check','serializer/serix/utils.go',"""	if sliceValue.Len() != arrValue.Len() {
+		return ierrors.Errorf("can't decode %d elements into an array of length %d", sliceValue.Len(), arrValue.Len())
+	}
+	fillArrayFromSlice(arrValue, sliceValue)""","""	if sliceValue.Len() > arrValue.Len() {
+		return ierrors.Errorf("can't decode %d elements into an array of length %d", sliceValue.Len(), arrValue.Len())
+	}
+	fillArrayFromSlice(arrValue, sliceValue)""",'reflect/fill-bounded-by-destination')
+M('C03','payload-read-bigendian','serializer/serializer.go',"""	payloadLength := binary.LittleEndian.Uint32(d.src[d.offset:])""","""	payloadLength := binary.BigEndian.Uint32(d.src[d.offset:])""",'table/payload-marker')
+M('C03','writebool-renamed-locals-silent','serializer/serializer.go',"""	var val byte
+	if v {
+		val = 1
+	}
+
+	if err := s.buf.WriteByte(val); err != nil {""","""	var encoded byte
+	if v {
+		encoded = 1
+	}
+
+	if err := s.buf.WriteByte(encoded); err != nil {""",'', silent=True)
+M('C02','viaslice-renamed-locals-silent','serializer/serix/utils.go',"""	sliceValue := reflect.New(sliceValueType).Elem()
+
+	if err := decodeSlice(sliceValue, sliceValueType); err != nil {
+		return err
+	}
+
+	if sliceValue.Len() != arrValue.Len() {
+		return ierrors.Errorf("can't decode %d elements into an array of length %d", sliceValue.Len(), arrValue.Len())
+	}
+	fillArrayFromSlice(arrValue, sliceValue)""","""	tmp := reflect.New(sliceValueType).Elem()
+
+	if err := decodeSlice(tmp, sliceValueType); err != nil {
+		return err
+	}
+
+	if arrValue.Len() != tmp.Len() {
+		return ierrors.Errorf("can't decode %d elements into an array of length %d", tmp.Len(), arrValue.Len())
+	}
+	fillArrayFromSlice(arrValue, tmp)""",'', silent=True)
+
+M('C01','viaslice-no-length-check','serializer/serix/utils.go',"""	if sliceValue.Len() != arrValue.Len() {
+		return ierrors.Errorf("can't decode %d elements into an array of length %d", sliceValue.Len(), arrValue.Len())
+	}
+	fillArrayFromSlice(arrValue, sliceValue)""","""	if sliceValue.Len() > arrValue.Len() {
+		return ierrors.Errorf("can't decode %d elements into an array of length %d", sliceValue.Len(), arrValue.Len())
+	}
+	fillArrayFromSlice(arrValue, sliceValue)""",'tempcopy/array-of-objects')
